@@ -2197,8 +2197,12 @@ def audit_free_helper(u, t, cty, depth=0):
         d = u.hdr.typedefs.get(name)
         if d and d[0] == "alias":
             return audit_free_helper(u, t, CTy(d[1].name, 0), depth + 1)
-        if heap_members and all(member_helper(mt, mc) for mt, mc in heap_members):
+        missing = [mc.name for mt, mc in heap_members if not member_helper(mt, mc)]
+        if heap_members and not missing:
             out.append(("member-helper-not-called", name, "no %s helper although members %s have helpers" % (name, [mc.name for _, mc in heap_members])))
+        elif missing:
+            # no helper because a member has none either: the member's own entry (below) carries the cause
+            out.append(("cascade", name, "no %s helper because members %s have none" % (name, missing)))
         else:
             out.append(("helper-missing", name, "no free helper for heap-owning type"))
     else:
